@@ -100,11 +100,15 @@ def Mon.wake (m : Mon) (i : Nat) (viaSlot : Bool) : Mon :=
   let t := m.get i
   -- async-spawn: a captured waker is a `FuturesUnordered` task waker; whether it reaches the task's own
   -- waker depends on that future's queue state, which a trace does not show — only `y` is judged
-  if m.spawn && viaSlot then m else
+  if m.spawn && viaSlot then
+    (if m.block && m.cur == some i && !t.hadSet && m.suspect.isNone then { m with suspect := some "block-on-yield-without-waitable-set" } else m)
+  else
   if m.cur == some i then
     -- during its own callback: a no-op on the stream; counts for YIELD unless the task is being destroyed
     let m1 := m.upd i fun t => { t with wokeInRound := true }
     let m2 := if t.cancelled && t.sleptAtCancel then { m1 with suspect := some "wake-after-cancelled-sleep" } else m1
+    -- `block_on` answers a YIELD by polling the task's waitable set: is there one?
+    let m2 := if m.block && !t.hadSet && m2.suspect.isNone then { m2 with suspect := some "block-on-yield-without-waitable-set" } else m2
     if m.itw then { m2 with expectNoop := some i } else m2
   else if t.exited then
     let m1 := if t.cancelled && t.sleptAtCancel then { m with suspect := some "wake-after-cancelled-sleep" } else m
@@ -217,8 +221,12 @@ def Mon.step (m : Mon) (e : Ev) : Mon :=
       | none => m.flag "poll-outside-callback"
       | some i =>
         let m := if !m.block && !m.seenIn && m.ctxToks != expectedCtx m.isStart true then m.flag "ctx-sequence" else m
+        -- a new poll: an earlier YIELD was survived; in the async-spawn build every poll that ends `Pending` makes
+        -- `FuturesUnordered` wake the task (YIELD), so the risk exists again at once
+        let risk := m.block && m.spawn && !(m.get i).hadSet
         let m := { m with seenIn := true,
-                          suspect := if m.suspect == some "block-on-yield-without-waitable-set" then none else m.suspect }
+                          suspect := if m.suspect == some "block-on-yield-without-waitable-set" || m.suspect.isNone then
+                                       (if risk then some "block-on-yield-without-waitable-set" else none) else m.suspect }
         let owner := lookup m.bodyTask j
         let m := if owner.isNone then { m with bodyTask := m.bodyTask ++ [(j, i)] } else m
         let ti := owner.getD i
@@ -268,9 +276,7 @@ def Mon.step (m : Mon) (e : Ev) : Mon :=
     | .yieldNow =>
       match m.cur with
       | some i =>
-        let m := m.wake i false
-        -- `block_on` answers a YIELD by polling the task's waitable set: is there one?
-        if m.block && !(m.get i).hadSet && m.suspect.isNone then { m with suspect := some "block-on-yield-without-waitable-set" } else m
+        m.wake i false
       | none => m
     | .x .usNew [r, w] =>
       match m.cur with
